@@ -33,7 +33,7 @@ func h14Setup() *h14Shared {
 	// the caller's RequireSets is a prefix of a longer slice: spare capacity
 	s.master = []string{"ab", "", "cd", "XYZ", "q"}
 	s.reqs = s.master[:3]
-	s.cr = CharRecipe{Length: 2, AllowChars: "abcdx", RequireSets: s.reqs}
+	s.cr = CharRecipe{Length: 3, AllowChars: "abcdx", Require: Digits | Symbols, RequireSets: s.reqs}
 	s.input = []string{"uno", "dos", "tres", "Uno"}
 	s.wl, _ = NewWordList(s.input)
 	s.sfRec = CharRecipe{Length: 1, AllowChars: "xy0", RequireSets: []string{"xy"}}
